@@ -51,6 +51,13 @@ def gen_cases(ctx, n):
             for s in segs:
                 if s[2] and rng.random() < 0.6:
                     s[2][rng.randrange(len(s[2]))] = MAGIC
+        if w == 64 and rng.random() < 0.04:
+            # an op in the last word(s) of the address space (finding F1)
+            top = (1 << 58) - 2
+            segs = [s for s in segs if s[0] + s[1] <= top]
+            segs.append([top, 2, [rng.choice([0, 128, 5]), rng.choice([0, top * 64, 200])]])
+            segs[0][2][:2] = [rng.choice([0, 128, 129]), (top + rng.choice([0, 1])) * 64]
+            tags = tags + ['top-of-address-space']
         inp = bytes(rng.randrange(256) for _ in range(rng.choice([0, 0, 1, 2])))
         base = {'w': w, 'segs': segs, 'input': inp.hex(), 'version': rng.choice([1, 2, 3]), 'watchdog': 4.0,
                 'tags': tags + [geometry], 'read_mem': mem_addresses(segs)}
